@@ -1,8 +1,21 @@
-// vxform spike: typed source transformer.
+// vxform: typed source transformer. Rewrites the non-test files of github.com/jimlambrt/gldap and its
+// testdirectory package so that they run under the controlled scheduler:
+//
+//  1. selected package-level identifiers (sync.Mutex, net.Listen, time.Now, context.WithCancel, bufio.NewWriter,
+//     sync/atomic.*, ...) are re-bound to the shims; everything else keeps its real package
+//  2. `go f(x)` becomes vrt.Go(func(){ f(x) }) with arguments evaluated first
+//  3. channel send / receive / close on plain statements become vrt.Send / Recv / Close
+//  4. reads and writes of fields of gldap/testdirectory structs reached through a pointer are recorded for the
+//     happens-before race oracle (vrt.Rd / vrt.W with a static site id)
+//  5. the export files of engine/export are added to the packages before transformation
+//
+// Output: transformed files under -out and a go build overlay (-overlay) that places them at -virt.
 package main
 
 import (
 	"bytes"
+	"encoding/json"
+	"flag"
 	"fmt"
 	"go/ast"
 	"go/format"
@@ -17,78 +30,211 @@ import (
 	"golang.org/x/tools/go/packages"
 )
 
-var importMap = map[string]string{
-	"sync":       "verif/shim/vsync",
-	"net":        "verif/shim/vnet",
-	"crypto/tls": "verif/shim/vtls",
-	"context":    "verif/shim/vctx",
-	"time":       "verif/shim/vtime",
-	"bufio":      "verif/shim/vbufio",
-	"github.com/jimlambrt/gldap": "verif/gldapx2",
-}
-
+const modPath = "github.com/jimlambrt/gldap"
 const rtPath = "verif/rt"
 
-var ownPkgs = map[string]bool{
-	"github.com/jimlambrt/gldap":               true,
-	"github.com/jimlambrt/gldap/testdirectory": true,
+// rebind: original package path -> identifier -> shim package path
+var rebind = map[string]map[string]string{
+	"sync": {"Mutex": "verif/shim/vsync", "RWMutex": "verif/shim/vsync", "WaitGroup": "verif/shim/vsync", "Once": "verif/shim/vsync"},
+	"net":  {"Listen": "verif/shim/vnet", "DefaultResolver": "verif/shim/vnet"},
+	"context": {"WithCancel": "verif/shim/vctx", "WithTimeout": "verif/shim/vctx", "WithDeadline": "verif/shim/vctx"},
+	"time": {"Now": "verif/shim/vtime", "Sleep": "verif/shim/vtime", "Since": "verif/shim/vtime", "Until": "verif/shim/vtime", "After": "verif/shim/vtime", "AfterFunc": "verif/shim/vtime"},
+	"bufio": {"NewReader": "verif/shim/vbufio", "NewWriter": "verif/shim/vbufio", "NewReaderSize": "verif/shim/vbufio", "NewWriterSize": "verif/shim/vbufio", "Reader": "verif/shim/vbufio", "Writer": "verif/shim/vbufio"},
+	"sync/atomic": {"*": "verif/shim/vatomic"},
 }
 
+var shimAlias = map[string]string{
+	"verif/shim/vsync": "vsync", "verif/shim/vnet": "vnet", "verif/shim/vctx": "vctx", "verif/shim/vtime": "vtime",
+	"verif/shim/vbufio": "vbufio", "verif/shim/vatomic": "vatomic",
+}
+
+var ownPkgs = map[string]bool{modPath: true, modPath + "/testdirectory": true}
+
 type xf struct {
-	pkg     *packages.Package
-	nRd, nW int
-	needRT  bool
+	pkg      *packages.Package
+	nRd, nW  int
+	needRT   bool
+	needShim map[string]bool
+	siteFn   []string
+	siteLoc  []string
+	curFn    string
+	virtPath string // import path the transformed module root gets
+	warn     []string
 }
 
 func main() {
-	src, out := os.Args[1], os.Args[2]
-	cfg := &packages.Config{Mode: packages.NeedName | packages.NeedFiles | packages.NeedCompiledGoFiles | packages.NeedSyntax | packages.NeedTypes | packages.NeedTypesInfo | packages.NeedImports | packages.NeedDeps, Dir: src}
+	src := flag.String("src", "/repo", "repository to transform")
+	out := flag.String("out", "", "output directory")
+	export := flag.String("export", "", "directory with *_export.go.txt files")
+	overlay := flag.String("overlay", "", "overlay json to write")
+	virt := flag.String("virt", "", "directory (inside the engine module) where the overlay places the transformed module")
+	virtImport := flag.String("virtimport", "verif/gldapx", "import path of -virt")
+	flag.Parse()
+	if *out == "" || *virt == "" {
+		fmt.Fprintln(os.Stderr, "usage: vxform -src DIR -out DIR -export DIR -overlay FILE -virt DIR")
+		os.Exit(2)
+	}
+	ov := map[string][]byte{}
+	if *export != "" {
+		b, err := os.ReadFile(filepath.Join(*export, "gldap_export.go.txt"))
+		if err != nil {
+			fail(err)
+		}
+		ov[filepath.Join(*src, "zz_verif_export.go")] = b
+		b, err = os.ReadFile(filepath.Join(*export, "testdirectory_export.go.txt"))
+		if err != nil {
+			fail(err)
+		}
+		ov[filepath.Join(*src, "testdirectory", "zz_verif_export.go")] = b
+	}
+	cfg := &packages.Config{
+		Mode:    packages.NeedName | packages.NeedFiles | packages.NeedCompiledGoFiles | packages.NeedSyntax | packages.NeedTypes | packages.NeedTypesInfo | packages.NeedImports | packages.NeedDeps,
+		Dir:     *src,
+		Overlay: ov,
+		Env:     append(os.Environ(), "GOFLAGS=-mod=mod"),
+	}
 	pkgs, err := packages.Load(cfg, ".", "./testdirectory")
 	if err != nil {
-		panic(err)
+		fail(err)
 	}
+	replace := map[string]string{}
 	for _, p := range pkgs {
 		if len(p.Errors) > 0 {
-			fmt.Println("load errors", p.Errors)
+			for _, e := range p.Errors {
+				fmt.Fprintln(os.Stderr, "load error:", e)
+			}
 			os.Exit(2)
 		}
-		x := &xf{pkg: p}
+		x := &xf{pkg: p, virtPath: *virtImport}
+		rel, _ := filepath.Rel(modPath, p.PkgPath)
+		if p.PkgPath == modPath {
+			rel = "."
+		}
 		for i, f := range p.Syntax {
 			name := p.CompiledGoFiles[i]
 			x.needRT = false
+			x.needShim = map[string]bool{}
+			f.Comments = nil
 			x.file(f)
-			rel, _ := filepath.Rel(src, name)
-			dst := filepath.Join(out, rel)
+			dst := filepath.Join(*out, rel, filepath.Base(name))
 			os.MkdirAll(filepath.Dir(dst), 0o755)
 			var buf bytes.Buffer
 			if err := format.Node(&buf, p.Fset, f); err != nil {
-				panic(fmt.Sprintf("%s: %v", name, err))
+				fail(fmt.Errorf("%s: %v", name, err))
 			}
 			if err := os.WriteFile(dst, buf.Bytes(), 0o644); err != nil {
-				panic(err)
+				fail(err)
 			}
+			replace[filepath.Join(*virt, rel, filepath.Base(name))] = dst
 		}
-		fmt.Printf("%s: files=%d reads=%d writes=%d\n", p.PkgPath, len(p.Syntax), x.nRd, x.nW)
+		// sites file
+		var sb strings.Builder
+		fmt.Fprintf(&sb, "package %s\n\nimport vrt %q\n\nvar _vsite = vrt.RegisterSites(\n\t[]string{", p.Name, rtPath)
+		for _, s := range x.siteFn {
+			fmt.Fprintf(&sb, "%q, ", s)
+		}
+		sb.WriteString("},\n\t[]string{")
+		for _, s := range x.siteLoc {
+			fmt.Fprintf(&sb, "%q, ", s)
+		}
+		sb.WriteString("})\n")
+		dst := filepath.Join(*out, rel, "zz_vsites.go")
+		if err := os.WriteFile(dst, []byte(sb.String()), 0o644); err != nil {
+			fail(err)
+		}
+		replace[filepath.Join(*virt, rel, "zz_vsites.go")] = dst
+		fmt.Printf("%s: files=%d reads=%d writes=%d sites=%d\n", p.PkgPath, len(p.Syntax), x.nRd, x.nW, len(x.siteFn))
+		for _, wn := range x.warn {
+			fmt.Println("  WARN:", wn)
+		}
 	}
+	if *overlay != "" {
+		b, _ := json.MarshalIndent(map[string]interface{}{"Replace": replace}, "", " ")
+		if err := os.WriteFile(*overlay, b, 0o644); err != nil {
+			fail(err)
+		}
+	}
+}
+
+func fail(err error) {
+	fmt.Fprintln(os.Stderr, "vxform:", err)
+	os.Exit(2)
+}
+
+func (x *xf) site(loc string) ast.Expr {
+	x.siteFn = append(x.siteFn, x.curFn)
+	x.siteLoc = append(x.siteLoc, loc)
+	return &ast.BinaryExpr{X: ast.NewIdent("_vsite"), Op: token.ADD, Y: &ast.BasicLit{Kind: token.INT, Value: strconv.Itoa(len(x.siteFn) - 1)}}
 }
 
 func (x *xf) file(f *ast.File) {
 	fset := x.pkg.Fset
-	// 1. instrumentation + go statements
-	astutil.Apply(f, x.pre, x.post)
-	// 2. imports
+	for _, d := range f.Decls {
+		x.curFn = x.pkg.Name + ".<init>"
+		if fd, ok := d.(*ast.FuncDecl); ok {
+			x.curFn = x.pkg.Name + "." + fd.Name.Name
+			if fd.Recv != nil && len(fd.Recv.List) == 1 {
+				t := fd.Recv.List[0].Type
+				star := ""
+				if st, ok := t.(*ast.StarExpr); ok {
+					t = st.X
+					star = "*"
+				}
+				if id, ok := t.(*ast.Ident); ok {
+					x.curFn = fmt.Sprintf("%s.(%s%s).%s", x.pkg.Name, star, id.Name, fd.Name.Name)
+				}
+			}
+		}
+		astutil.Apply(d, x.pre, x.post)
+	}
+	// imports: own module path -> virtual path
 	for _, imp := range f.Imports {
 		p, _ := strconv.Unquote(imp.Path.Value)
-		if np, ok := importMap[p]; ok {
+		if ownPkgs[p] {
+			np := x.virtPath + strings.TrimPrefix(p, modPath)
 			if imp.Name == nil {
-				base := p[strings.LastIndex(p, "/")+1:]
-				imp.Name = ast.NewIdent(base)
+				imp.Name = ast.NewIdent(p[strings.LastIndex(p, "/")+1:])
 			}
 			imp.Path.Value = strconv.Quote(np)
 		}
 	}
+	for sp := range x.needShim {
+		astutil.AddNamedImport(fset, f, shimAlias[sp], sp)
+	}
 	if x.needRT {
 		astutil.AddNamedImport(fset, f, "vrt", rtPath)
+	}
+	// drop imports that are no longer referenced
+	for _, imp := range append([]*ast.ImportSpec(nil), f.Imports...) {
+		p, _ := strconv.Unquote(imp.Path.Value)
+		if _, ok := rebind[p]; !ok {
+			continue
+		}
+		name := p[strings.LastIndex(p, "/")+1:]
+		if imp.Name != nil {
+			name = imp.Name.Name
+		}
+		if name == "_" || name == "." {
+			continue
+		}
+		used := false
+		ast.Inspect(f, func(n ast.Node) bool {
+			if se, ok := n.(*ast.SelectorExpr); ok {
+				if id, ok := se.X.(*ast.Ident); ok && id.Name == name && id.Obj == nil {
+					if pn, ok := x.pkg.TypesInfo.Uses[id].(*types.PkgName); ok && pn.Imported().Path() == p {
+						used = true
+					}
+				}
+			}
+			return !used
+		})
+		if !used {
+			if imp.Name != nil {
+				astutil.DeleteNamedImport(fset, f, imp.Name.Name, p)
+			} else {
+				astutil.DeleteImport(fset, f, p)
+			}
+		}
 	}
 }
 
@@ -110,7 +256,7 @@ func isShimType(t types.Type) bool {
 	}
 }
 
-// trackedField reports whether sel selects a field of a struct declared in our packages, reached through a pointer.
+// trackedField reports whether se selects a field of a struct declared in our packages, reached through a pointer.
 func (x *xf) trackedField(se *ast.SelectorExpr) bool {
 	sel, ok := x.pkg.TypesInfo.Selections[se]
 	if !ok || sel.Kind() != types.FieldVal {
@@ -123,18 +269,35 @@ func (x *xf) trackedField(se *ast.SelectorExpr) bool {
 	if isShimType(v.Type()) {
 		return false
 	}
-	// reached through a pointer somewhere on the path?
 	if sel.Indirect() {
 		return true
 	}
-	if _, ok := x.pkg.TypesInfo.TypeOf(se.X).Underlying().(*types.Pointer); ok {
-		return true
+	if t := x.pkg.TypesInfo.TypeOf(se.X); t != nil {
+		if _, ok := t.Underlying().(*types.Pointer); ok {
+			return true
+		}
 	}
-	// x.a.b where x.a is itself tracked (struct value inside pointer-reached struct)
 	if inner, ok := se.X.(*ast.SelectorExpr); ok {
 		return x.trackedField(inner)
 	}
 	return false
+}
+
+func (x *xf) loc(se *ast.SelectorExpr) string {
+	sel := x.pkg.TypesInfo.Selections[se]
+	t := sel.Recv()
+	for {
+		if p, ok := t.(*types.Pointer); ok {
+			t = p.Elem()
+			continue
+		}
+		break
+	}
+	name := "?"
+	if n, ok := t.(*types.Named); ok {
+		name = n.Obj().Name()
+	}
+	return name + "." + sel.Obj().Name()
 }
 
 func (x *xf) addressable(e ast.Expr) bool {
@@ -142,11 +305,11 @@ func (x *xf) addressable(e ast.Expr) bool {
 	return ok && tv.Addressable()
 }
 
-func rdCall(e ast.Expr) ast.Expr {
-	return &ast.CallExpr{Fun: &ast.SelectorExpr{X: ast.NewIdent("vrt"), Sel: ast.NewIdent("Rd")}, Args: []ast.Expr{&ast.UnaryExpr{Op: token.AND, X: e}}}
+func (x *xf) rdCall(se *ast.SelectorExpr) ast.Expr {
+	return &ast.CallExpr{Fun: &ast.SelectorExpr{X: ast.NewIdent("vrt"), Sel: ast.NewIdent("Rd")}, Args: []ast.Expr{&ast.UnaryExpr{Op: token.AND, X: se}, x.site(x.loc(se))}}
 }
-func wStmt(e ast.Expr) ast.Stmt {
-	return &ast.ExprStmt{X: &ast.CallExpr{Fun: &ast.SelectorExpr{X: ast.NewIdent("vrt"), Sel: ast.NewIdent("W")}, Args: []ast.Expr{&ast.UnaryExpr{Op: token.AND, X: e}}}}
+func (x *xf) wStmt(se *ast.SelectorExpr) ast.Stmt {
+	return &ast.ExprStmt{X: &ast.CallExpr{Fun: &ast.SelectorExpr{X: ast.NewIdent("vrt"), Sel: ast.NewIdent("W")}, Args: []ast.Expr{&ast.UnaryExpr{Op: token.AND, X: se}, x.site(x.loc(se))}}}
 }
 
 // written returns the tracked field selector that expression e (an assignment target) writes, if any.
@@ -155,7 +318,9 @@ func (x *xf) written(e ast.Expr) *ast.SelectorExpr {
 		switch t := e.(type) {
 		case *ast.ParenExpr:
 			e = t.X
-		case *ast.IndexExpr: // x.f[i] = v : contents write attributed to field
+		case *ast.IndexExpr: // x.f[i] = v : contents write attributed to the field
+			e = t.X
+		case *ast.SliceExpr: // copy(x.f[i:], ...)
 			e = t.X
 		case *ast.SelectorExpr:
 			if x.trackedField(t) {
@@ -168,10 +333,77 @@ func (x *xf) written(e ast.Expr) *ast.SelectorExpr {
 	}
 }
 
+// starWrites: `*p = v` where p points to one of our structs: one write per field.
+func (x *xf) starWrites(e ast.Expr) []ast.Stmt {
+	st, ok := e.(*ast.StarExpr)
+	if !ok {
+		return nil
+	}
+	id, ok := st.X.(*ast.Ident)
+	if !ok {
+		return nil
+	}
+	t := x.pkg.TypesInfo.TypeOf(st.X)
+	if t == nil {
+		return nil
+	}
+	p, ok := t.Underlying().(*types.Pointer)
+	if !ok {
+		return nil
+	}
+	n, ok := p.Elem().(*types.Named)
+	if !ok || n.Obj().Pkg() == nil || !ownPkgs[n.Obj().Pkg().Path()] {
+		return nil
+	}
+	s, ok := n.Underlying().(*types.Struct)
+	if !ok {
+		return nil
+	}
+	var out []ast.Stmt
+	for i := 0; i < s.NumFields(); i++ {
+		f := s.Field(i)
+		if isShimType(f.Type()) || (!f.Exported() && f.Pkg() != x.pkg.Types) {
+			continue
+		}
+		se := &ast.SelectorExpr{X: ast.NewIdent(id.Name), Sel: ast.NewIdent(f.Name())}
+		out = append(out, &ast.ExprStmt{X: &ast.CallExpr{Fun: &ast.SelectorExpr{X: ast.NewIdent("vrt"), Sel: ast.NewIdent("W")}, Args: []ast.Expr{&ast.UnaryExpr{Op: token.AND, X: se}, x.site(n.Obj().Name() + "." + f.Name())}}})
+	}
+	return out
+}
+
 var skip = map[ast.Node]bool{}
+
+func markSkip(e ast.Expr) {
+	for {
+		skip[e] = true
+		switch t := e.(type) {
+		case *ast.ParenExpr:
+			e = t.X
+		case *ast.IndexExpr:
+			e = t.X
+		case *ast.SliceExpr:
+			e = t.X
+		default:
+			return
+		}
+	}
+}
+
+var inComm = map[ast.Node]bool{}
 
 func (x *xf) pre(c *astutil.Cursor) bool {
 	switch n := c.Node().(type) {
+	case *ast.CommClause:
+		// the communication of a select case stays native (the select itself is handled as a whole)
+		if n.Comm != nil {
+			inComm[n.Comm] = true
+			ast.Inspect(n.Comm, func(m ast.Node) bool {
+				if u, ok := m.(*ast.UnaryExpr); ok && u.Op == token.ARROW {
+					inComm[u] = true
+				}
+				return true
+			})
+		}
 	case *ast.AssignStmt:
 		for _, l := range n.Lhs {
 			if se := x.written(l); se != nil {
@@ -187,7 +419,7 @@ func (x *xf) pre(c *astutil.Cursor) bool {
 			markSkip(n.X)
 		}
 	case *ast.SelectorExpr:
-		// do not wrap struct-valued intermediates: x.a.b -> keep x.a raw when it is a struct value
+		// do not wrap struct-valued intermediates: in x.a.b keep x.a raw when it is a struct value
 		if inner, ok := n.X.(*ast.SelectorExpr); ok {
 			if t := x.pkg.TypesInfo.TypeOf(inner); t != nil {
 				if _, isPtr := t.Underlying().(*types.Pointer); !isPtr {
@@ -201,61 +433,166 @@ func (x *xf) pre(c *astutil.Cursor) bool {
 	return true
 }
 
-func markSkip(e ast.Expr) {
-	for {
-		skip[e] = true
-		switch t := e.(type) {
-		case *ast.ParenExpr:
-			e = t.X
-		case *ast.IndexExpr:
-			e = t.X
-		default:
-			return
-		}
+func inBlock(c *astutil.Cursor) bool {
+	switch c.Parent().(type) {
+	case *ast.BlockStmt, *ast.CaseClause, *ast.CommClause:
+		return c.Index() >= 0
 	}
+	return false
+}
+
+func (x *xf) builtin(call *ast.CallExpr, name string) bool {
+	id, ok := call.Fun.(*ast.Ident)
+	if !ok || id.Name != name {
+		return false
+	}
+	_, isB := x.pkg.TypesInfo.Uses[id].(*types.Builtin)
+	return isB
+}
+
+func (x *xf) isChan(e ast.Expr) bool {
+	t := x.pkg.TypesInfo.TypeOf(e)
+	if t == nil {
+		return false
+	}
+	_, ok := t.Underlying().(*types.Chan)
+	return ok
+}
+
+func vrtCall(name string, args ...ast.Expr) *ast.CallExpr {
+	return &ast.CallExpr{Fun: &ast.SelectorExpr{X: ast.NewIdent("vrt"), Sel: ast.NewIdent(name)}, Args: args}
 }
 
 func (x *xf) post(c *astutil.Cursor) bool {
 	switch n := c.Node().(type) {
 	case *ast.SelectorExpr:
+		// 1. re-binding of package-level identifiers
+		if id, ok := n.X.(*ast.Ident); ok {
+			if pn, ok := x.pkg.TypesInfo.Uses[id].(*types.PkgName); ok {
+				if m, ok := rebind[pn.Imported().Path()]; ok {
+					sp, ok := m[n.Sel.Name]
+					if !ok {
+						sp, ok = m["*"]
+					}
+					if ok {
+						x.needShim[sp] = true
+						c.Replace(&ast.SelectorExpr{X: ast.NewIdent(shimAlias[sp]), Sel: n.Sel})
+						return true
+					}
+				}
+			}
+		}
 		if skip[n] || !x.trackedField(n) || !x.addressable(n) {
 			return true
 		}
-		// method value / call on field is fine: Rd returns the value
 		x.nRd++
 		x.needRT = true
-		c.Replace(rdCall(n))
+		c.Replace(x.rdCall(n))
 	case *ast.AssignStmt:
 		var ws []ast.Stmt
 		for _, l := range n.Lhs {
 			if se := x.written(l); se != nil {
-				ws = append(ws, wStmt(se))
+				ws = append(ws, x.wStmt(se))
 			}
+			ws = append(ws, x.starWrites(l)...)
 		}
 		if len(ws) > 0 {
-			if _, ok := c.Parent().(*ast.BlockStmt); ok || isCaseBody(c) {
+			if inBlock(c) {
 				for i := len(ws) - 1; i >= 0; i-- {
 					c.InsertAfter(ws[i])
 				}
 				x.nW += len(ws)
 				x.needRT = true
 			} else {
-				fmt.Printf("  WARN: write not in block at %s\n", x.pkg.Fset.Position(n.Pos()))
+				x.warn = append(x.warn, fmt.Sprintf("write not in a block at %s (not recorded)", x.pkg.Fset.Position(n.Pos())))
 			}
 		}
 	case *ast.IncDecStmt:
-		if se := x.written(n.X); se != nil {
-			c.InsertAfter(wStmt(se))
+		if se := x.written(n.X); se != nil && inBlock(c) {
+			c.InsertAfter(x.wStmt(se))
 			x.nW++
 			x.needRT = true
+		}
+	case *ast.ExprStmt:
+		call, ok := n.X.(*ast.CallExpr)
+		if !ok {
+			// plain receive statement: <-ch
+			if u, ok := n.X.(*ast.UnaryExpr); ok && u.Op == token.ARROW && x.isChan(u.X) && !inComm[n] {
+				x.needRT = true
+				c.Replace(&ast.ExprStmt{X: vrtCall("Recv", u.X)})
+			}
+			return true
+		}
+		switch {
+		case (x.builtin(call, "copy") || x.builtin(call, "delete") || x.builtin(call, "clear")) && len(call.Args) > 0:
+			if se := x.written(call.Args[0]); se != nil && inBlock(c) {
+				c.InsertAfter(x.wStmt(se))
+				x.nW++
+				x.needRT = true
+			}
+		case x.builtin(call, "close") && len(call.Args) == 1 && x.isChan(call.Args[0]):
+			x.needRT = true
+			c.Replace(&ast.ExprStmt{X: vrtCall("Close", call.Args[0])})
+		}
+	case *ast.SendStmt:
+		if inComm[n] {
+			return true
+		}
+		x.needRT = true
+		c.Replace(&ast.ExprStmt{X: vrtCall("Send", n.Chan, n.Value)})
+	case *ast.UnaryExpr:
+		// receive expression in a simple context: v := <-ch / v, ok := <-ch / f(<-ch)
+		if n.Op == token.ARROW && x.isChan(n.X) {
+			if inComm[n] {
+				return true
+			}
+			if as, ok := c.Parent().(*ast.AssignStmt); ok && len(as.Lhs) == 2 && len(as.Rhs) == 1 {
+				x.needRT = true
+				c.Replace(vrtCall("Recv2", n.X))
+				return true
+			}
+			if _, ok := c.Parent().(*ast.ExprStmt); ok {
+				return true // handled above
+			}
+			x.needRT = true
+			c.Replace(vrtCall("Recv", n.X))
+		}
+	case *ast.RangeStmt:
+		if x.isChan(n.X) {
+			// for v := range ch  ->  for { v, ok := vrt.Recv2(ch); if !ok { break }; ... }
+			x.needRT = true
+			okID := ast.NewIdent("_vok")
+			var lhs []ast.Expr
+			if n.Key != nil {
+				lhs = []ast.Expr{n.Key, okID}
+			} else {
+				lhs = []ast.Expr{ast.NewIdent("_"), okID}
+			}
+			tok := token.DEFINE
+			recv := &ast.AssignStmt{Lhs: lhs, Tok: tok, Rhs: []ast.Expr{vrtCall("Recv2", n.X)}}
+			brk := &ast.IfStmt{Cond: &ast.UnaryExpr{Op: token.NOT, X: okID}, Body: &ast.BlockStmt{List: []ast.Stmt{&ast.BranchStmt{Tok: token.BREAK}}}}
+			body := &ast.BlockStmt{List: append([]ast.Stmt{recv, brk}, n.Body.List...)}
+			c.Replace(&ast.ForStmt{Body: body})
+		}
+	case *ast.SelectStmt:
+		// a select that can block natively is preceded by a scheduling point; selects with a default never block
+		hasDefault := false
+		for _, cl := range n.Body.List {
+			if cc, ok := cl.(*ast.CommClause); ok && cc.Comm == nil {
+				hasDefault = true
+			}
+		}
+		if !hasDefault && inBlock(c) {
+			x.needRT = true
+			c.InsertBefore(&ast.ExprStmt{X: vrtCall("Point", &ast.BasicLit{Kind: token.STRING, Value: `"select"`}, ast.NewIdent("nil"))})
+			x.warn = append(x.warn, fmt.Sprintf("blocking select at %s is not modelled (may end as inconclusive)", x.pkg.Fset.Position(n.Pos())))
 		}
 	case *ast.GoStmt:
 		x.needRT = true
 		call := n.Call
 		if fl, ok := call.Fun.(*ast.FuncLit); ok && len(call.Args) == 0 {
-			c.Replace(&ast.ExprStmt{X: &ast.CallExpr{Fun: &ast.SelectorExpr{X: ast.NewIdent("vrt"), Sel: ast.NewIdent("Go")}, Args: []ast.Expr{fl}}})
+			c.Replace(&ast.ExprStmt{X: vrtCall("Go", fl)})
 		} else {
-			// general form: evaluate fun and args now
 			var lhs, rhs []ast.Expr
 			fn := ast.NewIdent("_vgo_f")
 			lhs = append(lhs, fn)
@@ -270,18 +607,10 @@ func (x *xf) post(c *astutil.Cursor) bool {
 			inner := &ast.CallExpr{Fun: fn, Args: args, Ellipsis: call.Ellipsis}
 			blk := &ast.BlockStmt{List: []ast.Stmt{
 				&ast.AssignStmt{Lhs: lhs, Tok: token.DEFINE, Rhs: rhs},
-				&ast.ExprStmt{X: &ast.CallExpr{Fun: &ast.SelectorExpr{X: ast.NewIdent("vrt"), Sel: ast.NewIdent("Go")}, Args: []ast.Expr{&ast.FuncLit{Type: &ast.FuncType{Params: &ast.FieldList{}}, Body: &ast.BlockStmt{List: []ast.Stmt{&ast.ExprStmt{X: inner}}}}}}},
+				&ast.ExprStmt{X: vrtCall("Go", &ast.FuncLit{Type: &ast.FuncType{Params: &ast.FieldList{}}, Body: &ast.BlockStmt{List: []ast.Stmt{&ast.ExprStmt{X: inner}}}})},
 			}}
 			c.Replace(blk)
 		}
 	}
 	return true
-}
-
-func isCaseBody(c *astutil.Cursor) bool {
-	switch c.Parent().(type) {
-	case *ast.CaseClause, *ast.CommClause:
-		return true
-	}
-	return false
 }
